@@ -66,12 +66,18 @@ def generate(rng, tier):
     return gen_progs(rng, tier)
 
 
+def body_of(line):
+    """results and final state without the sequence of lock acquisitions"""
+    return line.split(" :: ", 1)[1] if " :: " in line else line
+
+
 def run_and_compare(progs, tier):
     explored = conclib.explore(progs, "c17")
     replayable = [p for p in progs if p.cname in ("mem", "alt", "ovl", "ovlrm")]
     model, nreplayed = conclib.replay_model(replayable, {p.name: explored[p.name] for p in replayable}, "c17",
                                             limit_per_prog=150)
     dis = []
+    failing, broken = {}, {}
     nruns = 0
     exhaustive = 0
     distinct = set()
@@ -100,15 +106,27 @@ def run_and_compare(progs, tier):
                             if "/" + "/".join(parts[:i]) not in dirs:
                                 bad = "after all threads returned Ok, /%s is not a directory" % "/".join(parts[:i])
                 distinct.add(sch if len(distinct) < 100000 else "")
-            if bad and not any(x["case"] == p.name for x in dis):
-                dis.append({"case": p.name, "case_text": p.text(schedule=sch if not sch.startswith("stress") else None),
-                            "step": None, "op": "schedule " + sch, "model": model.get((p.name, sch)), "impl": rest,
-                            "violates": True, "note": bad})
+            if bad and p.name not in failing:
+                failing[p.name] = {"case": p.name, "case_text": p.text(schedule=sch if not sch.startswith("stress") else None),
+                                   "step": None, "op": "schedule " + sch, "model": model.get((p.name, sch)), "impl": rest,
+                                   "violates": True, "note": bad}
             m = model.get((p.name, sch))
-            if m is not None and m != rest and not any(x["case"] == p.name for x in dis):
-                dis.append({"case": p.name, "case_text": p.text(schedule=sch), "step": None, "op": "schedule " + sch,
-                            "model": m, "impl": rest, "violates": True,
-                            "note": "implementation and interleaved model differ under the same schedule"})
+            if m is not None and m != rest and (p.name not in broken or not broken[p.name]["violates"]):
+                differs = body_of(m) != body_of(rest)
+                if differs or p.name not in broken:
+                    broken[p.name] = {"case": p.name, "case_text": p.text(schedule=sch), "step": None, "op": "schedule " + sch,
+                                      "model": m, "impl": rest, "violates": differs,
+                                      "note": ("results or final state differ from the proved interleaved model under this schedule"
+                                               if differs else
+                                               "correspondence: the sequence of lock acquisitions differs from the model's under "
+                                               "the same schedule; no schedule of this program on which a create_dir_all fails or a "
+                                               "requested directory is missing was found")}
+    for p in progs:
+        if p.name in failing:
+            dis.append(failing[p.name])
+        elif p.name in broken:
+            dis.append(broken[p.name])
+    dis.sort(key=lambda x: not x["violates"])
     stats = {"evaluations": nruns, "distinct_nontrivial": len(distinct),
              "samples": [{"program": progs[1].text(), "schedules_explored": len(explored[progs[1].name]["runs"]),
                           "harness_summary": explored[progs[1].name]["done"]}],
